@@ -136,3 +136,9 @@ package flows
 //@   invariant forall u assets.GroupUUID :: (memberOf(c.groups, u) != old(memberOf(c.groups, u))) ==> (exists k int :: 0 <= k && k <= $i && c.assets.(*engine.sessionAssets).groups.all[k].UsesQuery() && c.assets.(*engine.sessionAssets).groups.all[k].UUID() == u)
 //@   invariant forall j int :: (0 <= j && j < len(added)) ==> (added[j] != nil && memberOf(c.groups, added[j].UUID()) && !old(memberOf(c.groups, added[j].UUID())) && (exists k int :: 0 <= k && k <= $i && c.assets.(*engine.sessionAssets).groups.all[k] == added[j]))
 //@   invariant forall j int :: (0 <= j && j < len(removed)) ==> (removed[j] != nil && !memberOf(c.groups, removed[j].UUID()) && old(memberOf(c.groups, removed[j].UUID())) && (exists k int :: 0 <= k && k <= $i && c.assets.(*engine.sessionAssets).groups.all[k] == removed[j]))
+
+// ---- C07: definition getters used in router contracts (immutable definitions)
+//@ interface Wait.Timeout
+//@   pure
+//@ interface Timeout.CategoryUUID
+//@   pure
